@@ -21,6 +21,13 @@ case kinds
       then the files are removed and the same for every argv of "nofile_runs" in the SAME cwd.
       -> {"runs": [outcome...], "nofile_runs": [outcome...], "views": {name: {"toml": tree|null, "ini": view|null}}}
       outcome = {"exit": null | int, "exc": null | str, "opts": {attr: canonical} | null, "warnings": [str], "stderr": str}
+  {"k": "seq", "steps": [{"files": {name: text}, "argv": [...]}, ...], "fn": "e2e" | "ns"}
+      every step in its own scratch cwd, ALL steps one after the other in ONE process -> {"steps": [outcome...], "views": [...]}
+
+Isolation: the worker itself never parses anything.  Every e2e / ns / seq case runs in a forked
+child of the pristine worker (pydoctor imported, nothing parsed yet), so no state can leak from one case to the next;
+ini/toml/validate cases build their own parser objects and run in the worker itself;
+a "seq" case is the one place where several parses share a process, on purpose.
 """
 import contextlib
 import enum
@@ -136,6 +143,55 @@ def run_e2e(case):
         shutil.rmtree(d, ignore_errors=True)
 
 
+def run_seq(case):
+    from pydoctor import options
+    fn = options.Options.from_args if case.get('fn', 'e2e') == 'e2e' else options.parse_args
+    outs, views = [], []
+    old = os.getcwd()
+    for st in case['steps']:
+        d = os.path.realpath(tempfile.mkdtemp(prefix='verif_c20_'))
+        assert not d.startswith('/repo') and not d.startswith('/verif')
+        try:
+            os.chdir(d)
+            v = {}
+            for name, text in st.get('files', {}).items():
+                with open(os.path.join(d, name), 'w', encoding='utf-8', newline='') as f:
+                    f.write(text)
+                v[name] = {'toml': toml_view(text), 'ini': ini_view(text)}
+            views.append(v)
+            outs.append(one_run(fn, st.get('argv', []), d))
+        finally:
+            os.chdir(old)
+            shutil.rmtree(d, ignore_errors=True)
+    return {'steps': outs, 'views': views}
+
+
+def isolated(fn, case):
+    """runs fn(case) in a forked child of this (pristine) process and returns its JSON result"""
+    r, w = os.pipe()
+    pid = os.fork()
+    if pid == 0:
+        code = 0
+        try:
+            os.close(r)
+            data = json.dumps(fn(case)).encode('ascii')
+            with os.fdopen(w, 'wb') as f:
+                f.write(data)
+        except BaseException:  # noqa
+            import traceback
+            traceback.print_exc()
+            code = 3
+        finally:
+            os._exit(code)
+    os.close(w)
+    with os.fdopen(r, 'rb') as f:
+        data = f.read()
+    _, status = os.waitpid(pid, 0)
+    if status != 0 or not data:
+        raise SystemExit('isolated child failed for case kind %r (status %r)' % (case.get('k'), status))
+    return json.loads(data)
+
+
 def pairs(d):
     return [[k, v] for k, v in d.items()]
 
@@ -219,11 +275,15 @@ def run_pyspec(case):
 
 def main():
     cases = json.load(sys.stdin)
+    import pydoctor.options  # noqa: imported once, before any fork; nothing is parsed in this process
+    import toml, configparser  # noqa
     res = []
     for c in cases:
         k = c['k']
         if k in ('e2e', 'ns'):
-            res.append(run_e2e(c))
+            res.append(isolated(run_e2e, c) if not os.environ.get("NOFORK") else run_e2e(c))
+        elif k == 'seq':
+            res.append(isolated(run_seq, c))
         elif k in ('ini', 'toml'):
             res.append(run_parse(c))
         elif k == 'validate':
